@@ -99,6 +99,8 @@ func TestSim(t *testing.T) {
 	switch job.Mode {
 	case "replay":
 		doReplay(e, &job, out)
+	case "shrink":
+		doShrink(e, &job, out)
 	default:
 		doRuns(e, &job, out, start)
 	}
@@ -161,9 +163,9 @@ func doRuns(e *Engine, job *Job, out *WorkerOut, start time.Time) {
 				continue
 			}
 			seenSig[res.Viol.Sig] = true
-			min := shrink(e, job, seed, res)
-			rf := writeReplay(job, e, seed, min, len(res.Tape))
-			out.Violations = append(out.Violations, ViolOut{Violation: min.Viol, Seed: seed, Replay: rf, TapeLen: len(min.Tape), OrigLen: len(res.Tape)})
+			// shrinking is a separate stage (mode "shrink"), so that the search budget is spent searching
+			rf := writeReplay(job, e, seed, res, len(res.Tape), fmt.Sprintf("tmp-w%d-", job.Worker))
+			out.Violations = append(out.Violations, ViolOut{Violation: res.Viol, Seed: seed, Replay: rf, TapeLen: len(res.Tape), OrigLen: len(res.Tape)})
 		}
 	}
 	for d := range digs {
@@ -174,14 +176,37 @@ func doRuns(e *Engine, job *Job, out *WorkerOut, start time.Time) {
 	}
 }
 
-func writeReplay(job *Job, e *Engine, seed uint64, res *Result, origLen int) string {
+func doShrink(e *Engine, job *Job, out *WorkerOut) {
+	raw, err := os.ReadFile(job.ReplayFile)
+	if err != nil {
+		out.HarnessErrors = append(out.HarnessErrors, err.Error())
+		return
+	}
+	var rf ReplayFile
+	if err := json.Unmarshal(raw, &rf); err != nil {
+		out.HarnessErrors = append(out.HarnessErrors, err.Error())
+		return
+	}
+	job.Opt = rf.Opt
+	orig := execute(e, rf.Property, rf.Tier, rf.Seed, NewReplayTape(rf.Tape), rf.Opt)
+	out.Runs = 1
+	if orig.Viol == nil || rf.Violation == nil || orig.Viol.Sig != rf.Violation.Sig {
+		out.Replay = map[string]any{"same_sig": false, "note": "violation did not recur when re-executed before shrinking", "trace": orig.Trace}
+		return
+	}
+	min := shrink(e, job, rf.Seed, orig)
+	p := writeReplay(job, e, rf.Seed, min, rf.OrigLen, "")
+	out.Violations = append(out.Violations, ViolOut{Violation: min.Viol, Seed: rf.Seed, Replay: p, TapeLen: len(min.Tape), OrigLen: rf.OrigLen})
+}
+
+func writeReplay(job *Job, e *Engine, seed uint64, res *Result, origLen int, prefix string) string {
 	rf := ReplayFile{Property: job.Prop, Engine: e.Name, Tier: job.Tier, Seed: seed, Opt: job.Opt, Tape: res.Tape, OrigLen: origLen,
 		Violation: res.Viol, Digest: res.Digest, Cfg: res.Cfg, Trace: res.Trace}
 	if len(res.Labels) <= 400 {
 		rf.Labels = res.Labels
 	}
 	_ = os.MkdirAll(job.ReplayDir, 0o755)
-	p := filepath.Join(job.ReplayDir, fmt.Sprintf("%s-%s-%d.json", job.Prop, e.Name, seed))
+	p := filepath.Join(job.ReplayDir, fmt.Sprintf("%s%s-%s-%d.json", prefix, job.Prop, e.Name, seed))
 	b, _ := json.MarshalIndent(rf, "", " ")
 	_ = os.WriteFile(p, b, 0o644)
 	return p
